@@ -84,6 +84,39 @@ func ruleR18_4(w *World, r *Report) {
 		}
 		for _, ci := range callsIn(fn) {
 			call, ok := ci.(*ssa.Call)
+			if ok {
+				// a "+" written on its own into a builder / writer (`sb.WriteByte('+')`): the sign of what follows
+				if pkg, name := stdCallee(&call.Call); (pkg == "strings" || pkg == "bytes") && len(call.Call.Args) == 2 {
+					plus := false
+					if strings.HasSuffix(name, ".WriteByte") || strings.HasSuffix(name, ".WriteRune") {
+						if k, isK := constInt(call.Call.Args[1]); isK && k == '+' {
+							plus = true
+						}
+					}
+					if strings.HasSuffix(name, ".WriteString") {
+						if sv, isS := constString(call.Call.Args[1]); isS && sv == "+" {
+							plus = true
+						}
+					}
+					if plus {
+						n++
+						key := fmt.Sprintf("%s sign in front of number #%d", w.FuncName(fn), n)
+						okc := false
+						for _, ec := range dominatingConds(call.Block()) {
+							bo, isB := ec.Cond.(*ssa.BinOp)
+							if !isB || typeShort(bo.X.Type()) != "int" {
+								continue
+							}
+							if k, isK := constInt(bo.Y); isK && k == 0 && ((bo.Op == token.GEQ && ec.True) || (bo.Op == token.LSS && !ec.True) || (bo.Op == token.GTR && ec.True)) {
+								okc = true
+							}
+						}
+						r.Check(okc, "R18.4", key, w.InstrPos(call), "\"+\" only when the number is >= 0",
+							"a \"+\" is written on a path where the number that follows may be negative: the text \"+-3 x2\" is not a term of the format")
+						continue
+					}
+				}
+			}
 			if !ok || w.calleeName(&call.Call) != "fmt.Sprintf" {
 				continue
 			}
@@ -329,16 +362,28 @@ func ruleR15_5(w *World, r *Report) {
 	r.Rule("R15.5", "the function that rebuilds Problem.Clauses compares the recorded removal indexes with the index of a loop over the whole, unsliced clause list", 1)
 	n := 0
 	for _, fn := range w.Fns {
-		if w.PkgName(fn) != "solver" || fn.Signature.Recv() == nil || typeShort(fn.Signature.Recv().Type()) != "*solver.Problem" {
+		if w.PkgName(fn) != "solver" || len(fn.Blocks) == 0 {
 			continue
 		}
-		if fn.Signature.Params().Len() != 1 || typeShort(fn.Signature.Params().At(0).Type()) != "[]int" {
+		// the rebuilding function: a method of *Problem taking the removal list and storing Clauses, or a function
+		// taking the clause list and the removal list and returning the rebuilt list
+		var list, whole ssa.Value
+		for _, p := range fn.Params {
+			switch typeShort(p.Type()) {
+			case "[]int":
+				list = p
+			case "[]*solver.Clause":
+				whole = p
+			}
+		}
+		if list == nil {
 			continue
 		}
-		if len(storesToField(fn, "solver.Problem", "Clauses")) == 0 {
+		isMethodForm := fn.Signature.Recv() != nil && typeShort(fn.Signature.Recv().Type()) == "*solver.Problem" && fn.Signature.Params().Len() == 1 && len(storesToField(fn, "solver.Problem", "Clauses")) > 0
+		isFuncForm := whole != nil && fn.Signature.Results().Len() == 1 && typeShort(fn.Signature.Results().At(0).Type()) == "[]*solver.Clause"
+		if !isMethodForm && !isFuncForm {
 			continue
 		}
-		list := fn.Params[1]
 		allInstrs(fn, func(ins ssa.Instruction) {
 			bo, ok := ins.(*ssa.BinOp)
 			if !ok || bo.Op != token.EQL {
@@ -356,7 +401,12 @@ func ruleR15_5(w *World, r *Report) {
 			n++
 			key := fmt.Sprintf("%s removal index comparison #%d", w.FuncName(fn), n)
 			full := fullRangeIndex(idx, func(b ssa.Value) bool {
-				return isLenOf(b, func(x ssa.Value) bool { _, ok := isFieldLoad(x, "solver.Problem", "Clauses"); return ok })
+				return isLenOf(b, func(x ssa.Value) bool {
+					if _, ok := isFieldLoad(x, "solver.Problem", "Clauses"); ok {
+						return true
+					}
+					return whole != nil && x == whole
+				})
 			})
 			r.Check(full, "R15.5", key, w.InstrPos(bo), "compared with the index of a loop over all of pb.Clauses",
 				"the removal indexes (positions in the whole clause list) are compared with an index that is not the position in the whole list (e.g. relative to a sub-slice): a clause that is not subsumed is removed instead")
